@@ -1,6 +1,7 @@
 import OH.Model.Parser
 import OH.Model.Print
 import OH.Model.ParserWF
+import OH.Model.PrintableOut
 import OH.Driver.Nz
 /-
 Suites `c05`, `c06`, `c04p` (C05, C06, parser part of C04).  Lines (see harness/src/syn.rs):
@@ -16,6 +17,8 @@ Verdicts, in this order:
                                 `norm-panic`, `print-panic`)
  * `fail parser-wf`             a successfully parsed expression is outside `ParserWF` (a field out of
                                 its documented range was accepted: the rejection clause of C05)
+ * `fail hypothesis-PrintableOut`  a successfully parsed expression is outside `printableOut`, the
+                                (decidable) hypothesis of the round-trip theorem `C06_parse_print_roundtrip`
  * `fail denotation`            `c05.den`: the parsed expression differs from what the sentence denotes
                                 (or a sentence that must be rejected parses / a valid one is rejected)
  * `fail accepted`              `c05.rej`: a sentence with an out-of-range field parsed
@@ -90,6 +93,7 @@ def handleParse (op : String) (args impl : List String) : Option String :=
       | none => none
       | some e =>
         if !ParserWF e then some s!"fail parser-wf model={ms}"
+        else if !OH.Model.Printable.printableOut e then some s!"fail hypothesis-PrintableOut model={ms}"
         else if op == "c05.rej" then some s!"fail accepted model={ms}"
         else if op == "c05.den" && joinSp expected != is then some s!"fail denotation expected={joinSp expected} model={ms}"
         else if ms != is then some s!"disagree model={ms}"
@@ -100,7 +104,7 @@ def handleParse (op : String) (args impl : List String) : Option String :=
       else some s!"ok {is.replace " " "-"}"
     | _ => none
 
-def handlePrint (args impl : List String) : Option String :=
+def handlePrint (op : String) (args impl : List String) : Option String :=
   match impl with
   | "parse-error" :: _ => some "ok parse-error"
   | _ =>
@@ -116,6 +120,8 @@ def handlePrint (args impl : List String) : Option String :=
         if p.startsWith "panic:" then
           some s!"fail panic print-panic model-agrees={if Print.printPanics e then "yes" else "no"}"
         else
+        -- `c06.print`: `e` came out of the real parser: it must be within the round-trip theorem's class
+        if op == "c06.print" && !OH.Model.Printable.printableOut e then some "fail hypothesis-PrintableOut" else
         let s := dec p
         let mprint := Print.toString? e
         let printAgrees := mprint == some s
@@ -165,7 +171,7 @@ def handle (op : String) (args impl : List String) : Option String :=
   match op with
   | "c04.parse" => handleTotal args impl
   | "c05.parse" | "c05.den" | "c05.rej" => handleParse op args impl
-  | "c06.print" | "c06.printn" => handlePrint args impl
+  | "c06.print" | "c06.printn" => handlePrint op args impl
   | _ => none
 
 end OH.Driver.Syn
